@@ -65,6 +65,87 @@ theorem walk_fill_eq_c11 {sf : Walk.SymFile} {r : Symbolize.Recs} (hrel : FileRe
     simp only [Option.map_some, projW, c1, c3, c4]
   · exact hres
 
+/-- table-level agreement of the STACK WIN lookups at one address: the walker model's
+    `WinTables.psize` (frame data, else FPO; records by position, classified by C07's model) gives
+    what C11's `paramSize` reads from its two tables (records encoded with their parameter size) -/
+def PsizeAgree (wt : Walk.WinTables) (csf : Symbolize.SymFile) (a : Nat) : Prop :=
+  wt.psize a =
+    match get csf.wfd a with
+    | some v => some (Rec.dec v).tag
+    | none => (get csf.wfpo a).map fun v => (Rec.dec v).tag
+
+theorem paramSize_of_agree {wt : Walk.WinTables} {csf : Symbolize.SymFile} {a : Nat}
+    (h : PsizeAgree wt csf a) (g : Symbolize.BFunc) :
+    Symbolize.paramSize csf a g = (wt.psize a).getD g.psize := by
+  unfold PsizeAgree at h
+  unfold Symbolize.paramSize
+  rw [h]
+  cases get csf.wfd a with
+  | some v => rfl
+  | none =>
+    cases get csf.wfpo a with
+    | some v => rfl
+    | none => rfl
+
+/- FULL STATEMENT (not closed in this round — `walk_fillW_eq_c11`):
+     for `WinRel wins r` (C11's `win4` / `win0` triples `(addr, size, parameter_size)` are the walker
+     model's records that C07's `classifyRec` makes frame data / FPO, in file order), record sizes
+     `< 2^32` and `build r = .ok csf`:  `PsizeAgree (Walk.winTables wins) csf a` for every `a`,
+     hence `(Walk.fillSymbolW sf (funcTable sf) (winTables wins) base instr).map projW = fr.fn`.
+   What is missing is only that table-level fact: both tables are `insertWinAll` + `safeP` over the same
+   `(addr, size)` sequence with different tags (parameter size vs. position); `insertWin` never reads
+   the tag, and `Lemmas/SymBridgeTable.lean` (`safeVecP_sim`, `get_sim`) already covers the `safeP`
+   half for any two valuations in which equal values imply equal ranges (true here: `Rec.enc` is
+   injective on `(addr, size, tag)` for sizes `< 2^32`). The run-time tie covers it meanwhile:
+   ~41 000 `symb xwalk wlk` cases per quick run carry STACK WIN records. -/
+
+/-- **`walk_fillW_eq_c11_partial`** — with STACK WIN records: for ANY walker-model STACK WIN tables
+    `wt`, `fillSymbolW` reports exactly C11's function name and base, exactly C11's parameter size
+    whenever the function is a PUBLIC (never overridden) or nothing is reported, and for a FUNC
+    C11's parameter size provided the two models' STACK WIN lookups agree at the address
+    (`PsizeAgree`, the part left open): frame data > FPO > FUNC on both sides. -/
+theorem walk_fillW_eq_c11_partial {sf : Walk.SymFile} {r : Symbolize.Recs} (hrel : FileRel sf r)
+    (wt : Walk.WinTables) {csf : Symbolize.SymFile} (hb : Symbolize.build r = .ok csf)
+    {base instr : Nat} (hps : base ≤ instr → PsizeAgree wt csf (instr - base))
+    {fr : Symbolize.Frame} (h : Symbolize.fillSymbol csf base instr = .ok fr) :
+    (Walk.fillSymbolW sf (Walk.funcTable sf) wt base instr).map projW = fr.fn := by
+  rcases fill_core hrel hb h with ⟨g, w, hge, _, hsome, hw, hcore, hfn⟩ | ⟨hcase, hres⟩
+  · unfold Walk.fillSymbolW
+    rw [hw]
+    simp only [if_neg (show ¬ instr < base by omega)]
+    cases hg : get (Walk.funcTable sf) (instr - base) with
+    | none => rw [hg] at hsome; cases hsome
+    | some i =>
+      simp only [wcore, Prod.mk.injEq] at hcore
+      obtain ⟨c1, _, c3, c4⟩ := hcore
+      rw [hfn, paramSize_of_agree (hps hge) g]
+      simp only [Option.map_some, projW, c1, c3, c4]
+  · unfold Walk.fillSymbolW
+    cases hf : Walk.fillSymbol sf (Walk.funcTable sf) base instr with
+    | none => rw [hf] at hres; exact hres
+    | some f =>
+      rw [hf] at hres
+      simp only
+      rcases hcase with hlt | hgn
+      · rw [if_pos hlt]; exact hres
+      · by_cases hlt : instr < base
+        · rw [if_pos hlt]; exact hres
+        · rw [if_neg hlt, hgn]; exact hres
+
+/-- name and base never depend on the STACK WIN tables: `fillSymbolW` and `fillSymbol` report the
+    same function name and base, for any tables -/
+theorem fillSymbolW_name_base (sf : Walk.SymFile) (wt : Walk.WinTables) (base instr : Nat) :
+    (Walk.fillSymbolW sf (Walk.funcTable sf) wt base instr).map (fun g => (g.name, g.base)) =
+      (Walk.fillSymbol sf (Walk.funcTable sf) base instr).map (fun g => (g.name, g.base)) := by
+  unfold Walk.fillSymbolW
+  cases Walk.fillSymbol sf (Walk.funcTable sf) base instr with
+  | none => rfl
+  | some f =>
+    simp only
+    split
+    · rfl
+    · split <;> rfl
+
 /-- the relation is inhabited for every walker-model file, and C11 answers on it: for every `sf`,
     base and `u64` instruction there are a built C11 file and an answer -/
 theorem c11_answers (sf : Walk.SymFile) (base instr : Nat) (hi : instr ≤ U64MAX) :
